@@ -186,6 +186,7 @@ def make_layout(rnd: random.Random, shape=None, nmacros=None, rich=True):
         g.labels_defined = []
         g.vars_in_scope = vars_
         g.in_macro = True
+        g._lbl_macro = 0 if shared_names else None
         body = g.block(2, False, False, n=rnd.randint(1, 4), allow_term=False)
         if rnd.random() < 0.3:
             body.append(("ctrl", "return"))
